@@ -47,6 +47,10 @@ DT = ("complex128", "complex64", "float64", "float32")
 @st.composite
 def st_case(draw):
     sh = draw(A.shapes(1, 4, 1, 9, 1500))
+    if draw(st.sampled_from([False] * 14 + [True])):
+        # one LONG axis (far beyond the small sizes used elsewhere), optionally next to a short one
+        sh = [draw(st.integers(65, 600))] + ([draw(st.integers(1, 3))] if draw(st.booleans()) else [])
+        sh = list(draw(st.permutations(sh)))
     sh = list(draw(st.permutations(sh)))
     nd = len(sh)
     dt = draw(st.sampled_from(DT))
